@@ -2,7 +2,8 @@ import Py4hwV.Drv.Proto
 import Py4hwV.Verilog.SExp
 import Py4hwV.Verilog.WF
 /- C03 driver (stateless, one request per line).
-     check (env (design m…) (design x…))   WF.checkE on the parsed design with declared black boxes x…
+     check (env (design m…) (design x…) [(pdefs (d Mod Param expr)…)])   WF.checkE on the parsed design with declared black boxes x…
+                                           and the default values of the parameter declarations
                                            -> ok | kind|module|… ;; kind|module|…   (duplicates removed, order kept)
      pair (design A B)                     second clause: two modules emitted alone under one name
                                            -> same | sig: d1 ;; d2 | body
@@ -21,6 +22,13 @@ def readEnv (s : String) : Option Env :=
       let mods ← toDesign d
       let ext ← toDesign x
       some { mods := mods, ext := ext }
+  | some (.list [.atom "env", d, x, .list (.atom "pdefs" :: ps)]) => do
+      let mods ← toDesign d
+      let ext ← toDesign x
+      let pd ← ps.mapM fun p => match p with
+        | .list [.atom "d", .atom m, .atom n, e] => do some ((m, n), ← toExpr e)
+        | _ => none
+      some { mods := mods, ext := ext, pdefs := pd }
   | _ => none
 
 def step (line : String) : String :=
